@@ -44,6 +44,9 @@ enum ActKind {
     SetCondField(i64),
     SetCondStr(usize),
     RetractMatched,
+    /// `ActivateAgendaGroup("side"); ActivateAgendaGroup("MAIN")`: leaves working memory unchanged (the focus goes away
+    /// and comes back within one firing)
+    FocusRoundTrip,
 }
 
 #[derive(Clone, Debug)]
@@ -220,6 +223,11 @@ fn gen_case(s: &mut Src, exh: u32) -> Case {
         ops.push(op);
     }
     ops.push(Op6::FireAll);
+    // drawn after the steps: in one all-noop case in three one rule's (empty) action list becomes a focus round trip
+    if s.chance(1, 3) && rules.iter().all(|r: &RRule| r.act == ActKind::None && r.ast.no_loop) {
+        let k = s.below(rules.len());
+        rules[k].act = ActKind::FocusRoundTrip;
+    }
     // type twins, drawn after everything else (byte-encoded cases written before this existed decode as before):
     // one write gets a field stored as the String that prints like its value; two times in three an update is first
     // made a copy of the previous write to the same fact, so that ONLY the type of one value changes
@@ -294,6 +302,9 @@ fn rule_text(r: &RRule) -> String {
     if r.act == ActKind::RetractMatched {
         let i = t.rfind('}').unwrap();
         t.insert_str(i, &format!("    Retract(\"{}\");\n", TYPES[r.ty]));
+    } else if r.act == ActKind::FocusRoundTrip {
+        let i = t.rfind('}').unwrap();
+        t.insert_str(i, "    ActivateAgendaGroup(\"side\");\n    ActivateAgendaGroup(\"MAIN\");\n");
     } else if r.ast.actions.is_empty() {
         // the GRL grammar has no empty `then`: a rule without effect on working memory is written with a Log action
         let i = t.rfind('}').unwrap();
@@ -361,7 +372,7 @@ fn build(c: &Case, rec: &Arc<Mutex<Vec<Firing>>>) -> Result<IncrementalEngine, &
                 return Err("parser-deviation:rule-count");
             }
             let p = p.remove(0);
-            let expect_actions = (r.ast.actions.len() + usize::from(r.act == ActKind::RetractMatched)).max(1);
+            let expect_actions = (r.ast.actions.len() + usize::from(r.act == ActKind::RetractMatched) + 2 * usize::from(r.act == ActKind::FocusRoundTrip)).max(1);
             if !crate::c01::cond_matches(&r.ast.cond, &p.conditions) || p.actions.len() != expect_actions || p.no_loop != r.ast.no_loop || p.salience != r.ast.salience {
                 return Err("parser-deviation:ast-mismatch");
             }
@@ -370,6 +381,10 @@ fn build(c: &Case, rec: &Arc<Mutex<Vec<Firing>>>) -> Result<IncrementalEngine, &
             let mut rule = rule_to_engine(&r.ast);
             if r.act == ActKind::RetractMatched {
                 rule.actions.push(ActionType::Retract { object: format!("\"{}\"", TYPES[r.ty]) });
+            }
+            if r.act == ActKind::FocusRoundTrip {
+                rule.actions.push(ActionType::ActivateAgendaGroup { group: "side".to_string() });
+                rule.actions.push(ActionType::ActivateAgendaGroup { group: "MAIN".to_string() });
             }
             rule
         };
@@ -509,7 +524,7 @@ pub fn run(s: &mut Src, ctx: &mut Ctx) -> Verdict {
     }
     let mut facts: Vec<MFact> = Vec::new();
     let mut last_id = 0u64;
-    let all_noop = c.rules.iter().all(|r| r.act == ActKind::None && r.ast.no_loop);
+    let all_noop = c.rules.iter().all(|r| matches!(r.act, ActKind::None | ActKind::FocusRoundTrip) && r.ast.no_loop);
     let mut first_fire_done = false;
     let mut armed: Vec<bool> = vec![true; c.rules.len()];
     let mut clock: u64 = 1;
@@ -721,7 +736,7 @@ pub fn run(s: &mut Src, ctx: &mut Ctx) -> Verdict {
                     for f in &recs {
                         let r = &c.rules[f.rule];
                         match r.act {
-                            ActKind::None => {}
+                            ActKind::None | ActKind::FocusRoundTrip => {}
                             ActKind::RetractMatched => {
                                 // the action retracts exactly the matched handle
                                 if let Some(m) = facts.iter_mut().find(|m| Some(m.handle.id()) == f.typed_handle) {
